@@ -46,7 +46,7 @@ def r17_1(ctx):
         ctx.fn(f)
         listeners = {}
         models = [(cmd_text, Outcomes(OK(ok_res), OK(bad_res), RAISE("EzspError"), RAISE("TimeoutError"), RAISE("CancelledError"))),
-                  ("await:stack_status", Outcomes(OK(sl[want]), RAISE("TimeoutError"), RAISE("CancelledError"))),
+                  ("await:listener", Outcomes(OK(sl[want]), RAISE("TimeoutError"), RAISE("CancelledError"))),
                   ("*.create_future", lambda px, t, a, k, fr: fut("listener")),
                   ("self._ezsp.networkState", Outcomes(OK((repo.cls(NAMED, "EmberNetworkStatus").members()["NO_NETWORK"],))))]
         px = PX(repo, models=models, inline=lambda g, aw: g.name in ("wait_for_stack_status", "from_ember_status"))
@@ -67,7 +67,7 @@ def r17_1(ctx):
             lst = (store if recv == "self" else store["_ezsp"].fields)["_stack_status_listeners"]
             cmd = [e for e in p.events if e.kind == "await" and e.what == cmd_text and (cmd_text != "self._command" or e.args[:1] == (f.name,))]
             app_ = [e for e in p.events if e.kind == "write" and e.what.endswith(".append")]
-            wait = [e for e in p.events if e.kind == "await" and e.what == "stack_status"]
+            wait = [e for e in p.events if e.kind == "await" and e.what == "listener"]
             cmy = [e for e in p.events if e.kind == "cm-yield"]
             pid = f"{f.name}:[{str(cmd[0].extra)[:30] if cmd else '-'}/{str(wait[0].extra)[:24] if wait else '-'}]"
             bad = None
